@@ -410,7 +410,7 @@ func TestC01Seq(t *testing.T) {
 	rec.Rule("case = seeded history of 200 subscribe/unsubscribe/lookup operations on one real Trie (both matchers), " +
 		"compared op-by-op with a reference set model; non-trivial = the history contained >=1 lookup with a non-empty expected set, " +
 		">=1 overlapping or duplicate filter and ended with the full teardown check; distinct = hash of the operation list")
-	ncases := vk.N(400, 30000)
+	ncases := vk.N(900, 45000)
 	for ci := 0; ci < ncases; ci++ {
 		if !vk.Mine(ci) {
 			continue
@@ -457,11 +457,35 @@ func runSeqCase(rec *vk.Rec, ci int) {
 	}
 	nops := 200
 	bad := false
+	// focused cases (every third): a universe of 3-5 filters that nest in each other (F, F/x, F/x/y, a sibling, a '+' variant)
+	// and 2-3 subscribers, so that long runs of operations hit the same few nodes again and again - re-subscribing right after a
+	// branch was pruned, removing in every order, the same filter twice in a row
+	var universe []filt
+	npool := len(subPool)
+	if ci%3 == 2 {
+		base := []string{litLevels[r.Intn(len(litLevels))]}
+		l2, l3 := litLevels[r.Intn(len(litLevels))], litLevels[r.Intn(len(litLevels))]
+		universe = []filt{{levels: base}, {levels: append(append([]string{}, base...), l2)}, {levels: append(append([]string{}, base...), l2, l3)}}
+		if r.Bool() {
+			universe = append(universe, filt{levels: append(append([]string{}, base...), litLevels[r.Intn(len(litLevels))])})
+		}
+		if r.Bool() {
+			universe = append(universe, filt{levels: append(append([]string{}, base...), "+")})
+		}
+		npool = r.Range(2, 3)
+		rec.Inc("focused_cases")
+	}
+	pickFilter := func() filt {
+		if universe != nil {
+			return universe[r.Intn(len(universe))]
+		}
+		return genFilter(r, mqtt, prev, true)
+	}
 	for step := 0; step < nops && !bad; step++ {
 		switch x := r.Intn(100); {
 		case x < 40: // subscribe
-			f := genFilter(r, mqtt, prev, true)
-			s := r.Intn(len(subPool))
+			f := pickFilter()
+			s := r.Intn(npool)
 			if len(prev) > 0 && r.Chance(30) { // same filter, other subscriber / same subscriber
 				f = prev[r.Intn(len(prev))]
 			}
@@ -479,8 +503,8 @@ func runSeqCase(rec *vk.Rec, ci int) {
 			if h, hs, ok := held(); ok && r.Chance(80) {
 				f, s = h, hs
 			} else {
-				f = genFilter(r, mqtt, prev, true)
-				s = r.Intn(len(subPool))
+				f = pickFilter()
+				s = r.Intn(npool)
 			}
 			ops = append(ops, opRec{Op: "unsub", Sub: subPool[s].id, Filter: f.String()})
 			trie.Unsubscribe(f.ssid(), subPool[s])
